@@ -143,7 +143,7 @@ C[PA + 'contains_sequence_ambiguity'] = dict(
     ensures=[('intervals-or-unknown-position', 'result == (self._intervals is not None or self._unknown_mods is not None)')], raises={})
 C.update({k: v for k, v in accessor_contracts().items() if k.endswith('.intervals') or k.endswith('.unknown_mods')})
 C[PA + 'split'] = dict(params=dict(self='Annotation'), returns='List[Annotation]', pure=True, trusted=True,
-                       bounded_by='one-residue pieces: checked by bounded/C07.py / bounded/C04.py', ensures=[])
+                       bounded_by='proved against its own contract in contracts/pieces.py (piece i is slice(i, i+1) of the peptide without labile modifications, which go to the first piece)', ensures=[])
 C['peptacular.mass_calc:mass'] = dict(
     params=dict(sequence='Annotation', charge='Optional[int]', ion_type='str', monoisotopic='bool'), returns='real', pure=True,
     trusted=True, bounded_by='the mass calculator: checked against the reference calculator by bounded/C02.py', ensures=[])
